@@ -540,6 +540,10 @@ func (c *regexpSimplifyChecker) simplifyCharRange(rng syntax.Expr) string {
 	lo := rng.Args[0].Value
 	hi := rng.Args[1].Value
 	if len(lo) == 1 && len(hi) == 1 {
+		if lo == "-" || hi == "-" || (hi[0]-lo[0] == 2 && lo[0]+1 == '-') {
+			// The enumeration would contain a '-' that could form a new range.
+			return ""
+		}
 		switch hi[0] - lo[0] {
 		case 0:
 			return lo
